@@ -545,12 +545,12 @@ def read_ndjson(path):
 # --------------------------------------------------------------------------
 # TLC state dumps (-dump file): list of {var: value}
 # --------------------------------------------------------------------------
-def apalache_check(module, cinit, init, inv, length, expect_error=False, timeout=1200):
+def apalache_check(module, cinit, init, inv, length, expect_error=False, timeout=1200, next_=None):
     """apalache-mc check on spec/<module>.tla; returns a model dict like run_tlc. Raises MachineryError when the
     outcome is not the expected one (NoError, or a reported invariant violation for a sensitivity run)."""
     out_dir = workdir("apalache", "%s_%d" % (module, os.getpid()), fresh=True)
-    cmd = ["apalache-mc", "check", "--cinit=" + cinit, "--init=" + init, "--inv=" + inv, "--length=%d" % length,
-           "--out-dir=" + out_dir, module + ".tla"]
+    cmd = ["apalache-mc", "check"] + (["--cinit=" + cinit] if cinit else []) + (["--next=" + next_] if next_ else []) + \
+          ["--init=" + init, "--inv=" + inv, "--length=%d" % length, "--out-dir=" + out_dir, module + ".tla"]
     t0 = time.time()
     try:
         p = subprocess.run(cmd, cwd=SPEC, stdout=subprocess.PIPE, stderr=subprocess.STDOUT, text=True, timeout=timeout)
@@ -559,7 +559,7 @@ def apalache_check(module, cinit, init, inv, length, expect_error=False, timeout
     finally:
         shutil.rmtree(out_dir, ignore_errors=True)
     noerr = "The outcome is: NoError" in p.stdout
-    viol = "state invariant" in p.stdout and "violated" in p.stdout
+    viol = ("state invariant" in p.stdout and "violated" in p.stdout) or "The outcome is: Error" in p.stdout
     log("apalache %s cinit=%s init=%s length=%d -> %s (%.1fs)" % (module, cinit, init, length,
                                                                  "NoError" if noerr else ("violation" if viol else "?"),
                                                                  time.time() - t0))
